@@ -207,8 +207,9 @@ func (s *scanner) processTail() (lexeme.LexEvent, error) {
 			err.SetIndex(s.dataSize - 1)
 			return lexeme.LexEvent{}, err
 		}
-		if !s.arrayFound && !s.lengthComputing {
+		if !s.arrayFound && (!s.lengthComputing || s.dataSize > 0) {
 			// Nothing but blanks and comments: there are no enum values at all.
+			// Only the length of an empty text is zero.
 			err := errors.NewDocumentError(s.file, errors.ErrEnumArrayExpected)
 			if s.dataSize > 0 {
 				err.SetIndex(s.dataSize - 1)
